@@ -13,7 +13,7 @@ rsync -a --exclude work --exclude 'harness/target' --exclude .git --exclude evid
 sed -i "s#path = \"/repo\"#path = \"$S/repo\"#" $S/verif/harness/Cargo.toml
 mkdir -p $S/verif/evidence $S/verif/replays
 for P in "$@"; do
-  ( cd $S/verif && VERIF_TLC_PAR=${MUT_PAR:-4} python3 tools/check.py $P --tier ${MUT_TIER:-quick} > /verif/work/mutants/$N.$P.log 2>&1 ; echo "rc=$?" >> /verif/work/mutants/$N.$P.log )
+  ( cd $S/verif && VERIF_SKIP_MC=1 VERIF_TLC_PAR=${MUT_PAR:-4} python3 tools/check.py $P --tier ${MUT_TIER:-quick} > /verif/work/mutants/$N.$P.log 2>&1 ; echo "rc=$?" >> /verif/work/mutants/$N.$P.log )
   rc=$(tail -1 /verif/work/mutants/$N.$P.log)
   v=$(grep -c "^VIOLATION" /verif/work/mutants/$N.$P.log)
   d=$(grep -c "^CONFORMANCE-DIVERGENCE" /verif/work/mutants/$N.$P.log)
